@@ -15,7 +15,7 @@ from . import common, coqterm, gen
 from .c04 import fresh_schema_name
 from .coqterm import coq_list, coq_string, coq_pyval, coq_option, coq_float
 
-PROPERTY_FILES = ["Properties/C05.v", "Proofs/LiteralFacts.v", "Proofs/ArgsRefine.v", "Proofs/LiteralRefine.v"]
+PROPERTY_FILES = ["Properties/C05.v", "Proofs/LiteralFacts.v", "Proofs/ArgsRefine.v", "Proofs/LiteralRefine.v", "Properties/C05Typing.v", "Proofs/InputTyping.v"]
 
 
 def json_of_lit(x):
@@ -256,7 +256,7 @@ def main(tier_, replay=None):
     from . import engine_env
     rep = common.Report("C05")
     seed = common.seed()
-    b = common.build(["Properties/C05.vo", "Model/RunArgs.vo", "Model/StdScalars.vo"])
+    b = common.build(["Properties/C05.vo", "Properties/C05Typing.vo", "Model/RunArgs.vo", "Model/StdScalars.vo"])
     gate = common.grep_gate()
     proofs_ok = b["ok"] and not gate
     engine_env.setup()
@@ -348,6 +348,9 @@ def main(tier_, replay=None):
                            "response": r["response"], "n": len(impl_mm)}, no_input=True)
     nob, names = common.count_obligations(PROPERTY_FILES)
     assum = common.assumptions("Properties/C05.v") if b["ok"] else {"closed": 0, "axioms": ["build failed"]}
+    if b["ok"]:
+        a2 = common.assumptions("Properties/C05Typing.v")
+        assum = {"closed": assum["closed"] + a2["closed"], "axioms": assum["axioms"] + a2["axioms"]}
     common.write_evidence("C05", tier_, "proof", {
         "obligations": nob, "discharged": nob if proofs_ok else 0,
         "checker_cmd": "make Properties/C05.vo (coqc 8.16.1) after regenerating Gen/ from /repo",
